@@ -150,15 +150,50 @@ def new_client(framer):
     return TcpClient("localhost", 0, dt)
 
 
+_SHARED = set()     # attribute names found not to be deep-copyable (sockets, contexts): shared between clones
+
+
 def clone(c):
+    """copy of the client object for one more edge: every attribute that can be deep-copied is (lists, bytearrays, dicts,
+    helper objects - whatever the framer keeps its state in), the rest (sockets, contexts) is shared."""
+    import copy
     c2 = object.__new__(type(c))
-    c2.__dict__ = {k: (list(v) if isinstance(v, list) else v) for k, v in c.__dict__.items()}
+    d = {}
+    for k, v in c.__dict__.items():
+        if isinstance(v, (str, int, float, bool, type(None), bytes)):
+            d[k] = v
+            continue
+        if type(v) is list and (not v or isinstance(v[0], int)):
+            d[k] = list(v)
+            continue
+        if type(v) is bytearray:
+            d[k] = bytearray(v)
+            continue
+        if k in _SHARED:
+            d[k] = v
+            continue
+        try:
+            d[k] = copy.deepcopy(v)
+        except Exception:  # noqa: BLE001
+            _SHARED.add(k)
+            d[k] = v
+    c2.__dict__ = d
     return c2
 
 
+def _canon(v):
+    if isinstance(v, (list, tuple, bytearray, bytes)):
+        return tuple(_canon(x) for x in v)
+    if isinstance(v, dict):
+        return tuple(sorted((repr(k), _canon(x)) for k, x in v.items()))
+    if isinstance(v, (str, int, float, type(None), bool)):
+        return v
+    return None
+
+
 def ckey(c):
-    return tuple(sorted((k, tuple(v) if isinstance(v, list) else v) for k, v in c.__dict__.items()
-                        if isinstance(v, (list, str, int, float, type(None), bool))))
+    return tuple(sorted((k, _canon(v)) for k, v in c.__dict__.items()
+                        if isinstance(v, (list, tuple, bytearray, bytes, dict, str, int, float, type(None), bool))))
 
 
 def step(framer, client, chunk):
